@@ -1266,6 +1266,7 @@ class Element(Mapping[str, Attribute]):
         """
         # The format header is:
         # <!-- dmx encoding [encoding] [version] format [format] [version] -->
+        start_pos = file.tell()
         header = bytearray(file.read(256))
         if not header.startswith(b'<!--'):
             raise ValueError('The file is not a DMX file.')
@@ -1306,7 +1307,7 @@ class Element(Mapping[str, Attribute]):
             fmt_vers = 0
 
         # Seek back to where the end of the header is
-        file.seek(header_len)
+        file.seek(start_pos + header_len)
 
         if enc_name == b'keyvalues2':
             file_txt = io.TextIOWrapper(file, encoding='utf8' if unicode else 'ascii')
